@@ -518,6 +518,23 @@ func judgeC19(c c19Case) (v core.Verdict) {
 	if !check("multi after ClearLoaders + AddLoaders", m2, []map[string]string{fm}) {
 		return
 	}
+	// a multi stacked inside a multi: the outer one answers from whatever the inner one holds at the time of the question
+	inner := multi.NewLoader(loaders[:1]...)
+	outer := multi.NewLoader(inner)
+	v.Label("nested-multi")
+	if !check("multi wrapping a multi of the first layer", outer, models[:1]) {
+		return
+	}
+	if len(loaders) > 1 {
+		inner.AddLoaders(loaders[1:]...)
+		if !check("multi wrapping a multi, after the inner one was given the remaining layers", outer, models) {
+			return
+		}
+	}
+	inner.ClearLoaders()
+	if !check("multi wrapping a multi, after the inner one was cleared", outer, nil) {
+		return
+	}
 	v.NonTrivial = isDirOrLater
 	return
 }
